@@ -184,6 +184,7 @@ PROPS = {
             "a message the servers decode but drop is answered on DoQ with a bare SERVFAIL carrying its own ID and question and on DoH with HTTP 500: accepted as the transport's form of dropping",
             "queries pipelined in front of a message that makes a stream server close the connection are not judged; on DoQ/UDP a missing answer is judged only in the sub-batches without datagram loss",
             "DNSCrypt is not simulated (its UDP server needs *net.UDPConn)",
+            "queries longer than 512 octets are not sent over plain UDP (RFC 1035 4.2.1; the server's datagram receive buffer is 512 octets and drops them), they are exercised on the stream transports",
             "quic-go v0.48.2 runs in a copy whose timers fire 1us after their deadline (it compares now with the deadline strictly, which the exact fake clock never satisfies)",
         ],
         "components": {
